@@ -260,6 +260,34 @@ pub fn leg_sqlconf(thorough: bool) -> Value {
             }
         }
     }
+    // exclusivity (C03 / A5 as far as this code is concerned): while ANOTHER connection holds the write lock, txn()
+    // must wait and then fail; it must never hand out a "transaction" that is not one (writes would auto-commit)
+    {
+        cases += 1;
+        let dir = tempfile::Builder::new().prefix("tcss-sqllock-").tempdir_in(if std::path::Path::new("/dev/shm").is_dir() { "/dev/shm" } else { "/tmp" }).unwrap();
+        let st = SqliteStorage::new(dir.path()).unwrap();
+        let cl = Uuid::new_v4();
+        let holder = rusqlite::Connection::open(dir.path().join("taskchampion-sync-server.sqlite3")).unwrap();
+        holder.execute("BEGIN IMMEDIATE", []).unwrap();
+        let t0 = std::time::Instant::now();
+        let r = st.txn(cl);
+        let waited = t0.elapsed().as_secs_f64();
+        match r {
+            Err(_) => {}
+            Ok(mut txn) => {
+                // what does a write through it do while the other connection still holds the lock?
+                let w = txn.new_client(NIL);
+                drop(txn);
+                holder.execute("ROLLBACK", []).unwrap();
+                let raw = absfn::via_raw_sql(dir.path()).unwrap();
+                let leaked = cs(&raw.db, cl).exists;
+                violations.push(json!({"tags": ["C03", "C05", "C01", "C13"], "clause": "st.txn.exclusive",
+                    "what": format!("SQLite backend violates st.txn.exclusive: txn() returned a transaction after {waited:.1}s although another connection held the write lock the whole time (write through it: {:?}; a change from the dropped, un-committed transaction is visible afterwards: {leaked})", w.map_err(|e| e.to_string())),
+                    "trace": ["another connection: BEGIN IMMEDIATE (held)", "storage.txn(client)"]}));
+            }
+        }
+        samples.push(json!({"state": "write lock held by another connection", "call": "Storage::txn", "waited_s": waited}));
+    }
     json!({"leg": "sqlconf", "cases": cases, "distinct_state_x_method": states.len(), "violations": violations, "samples": samples,
-        "bound": format!("{} seed states (empty client; chains of 1, 2, 6 versions with nil / non-nil base; snapshot at latest / older; two clients with crossing ids) x every StorageTxn method x id alphabet (nil, latest, previous, base, fresh, other client's latest and previous, snapshot version) x payloads (1 B, 0x00/0xFF, numeric-looking text, invalid UTF-8, empty, 4095, 4096, 4097, 65536 B{}) x commit / drop x re-open; abstraction by independent raw SQL", prefixes.len(), if thorough { ", 1 MiB" } else { "" })})
+        "bound": format!("{} seed states (empty client; chains of 1, 2, 6 versions with nil / non-nil base; snapshot at latest / older; two clients with crossing ids) x every StorageTxn method x id alphabet (nil, latest, previous, base, fresh, other client's latest and previous, snapshot version) x payloads (1 B, 0x00/0xFF, numeric-looking text, invalid UTF-8, empty, 4095, 4096, 4097, 65536 B{}) x commit / drop x re-open; abstraction by independent raw SQL; plus one lock-contention case (write lock held by another connection for the whole lock-wait budget)", prefixes.len(), if thorough { ", 1 MiB" } else { "" })})
 }
